@@ -248,6 +248,36 @@ func (x *c13World) apply(op string, last bool) (enabled bool) {
 		s.c.Hangup()
 		settle()
 		s.status = 0
+	case "stale":
+		// a request addressed to an id nobody holds any more (the user just left): it reaches nobody, and the
+		// requester in particular stays connected and keeps being served
+		snd := x.slots[k]
+		if snd.status != 2 {
+			return false
+		}
+		var conns []*world.Client
+		for _, s := range x.slots {
+			if s.status != 0 {
+				conns = append(conns, s.c)
+			}
+		}
+		typ := map[int]uint16{0: ref.TDisconnectUser, 1: ref.TInviteNewChat, 2: ref.TSendInstantMsg, 3: ref.TGetClientInfoText}[arg]
+		fields := []ref.Fld{ref.F16(ref.FUserID, 0x7777)}
+		if typ == ref.TSendInstantMsg {
+			fields = append(fields, ref.FS(ref.FData, "psst"), ref.F16(ref.FOptions, 1))
+		}
+		snd.c.Req(typ, fields...)
+		world.Settle(5 * time.Second)
+		for _, c := range conns {
+			if c.Conn.Closed {
+				x.fail("targeted/request-to-a-vacant-id-closed-a-connection", fmt.Sprintf("%s (request type %d to id 0x7777 by slot %d)", c.Name, typ, k))
+			}
+		}
+		pid := snd.c.Req(ref.TGetUserNameList)
+		settle()
+		if snd.c.Reply(pid) == nil {
+			x.fail("targeted/requester-not-served-after-request-to-a-vacant-id", fmt.Sprintf("request type %d", typ))
+		}
 	case "pm", "inv", "ginfo", "kick":
 		j := k
 		t := x.slots[arg]
@@ -540,7 +570,7 @@ func c13Exec(shift int) func(hist []string) explore.SeqResult {
 func c13Alphabet() []string {
 	a := []string{"c123:0", "c123:1", "c123:2", "c15:1", "c15:2", "agree:1:0", "agree:1:5", "agree:2:0", "agree:2:6", "agree:1:8", "agree:2:9",
 		"info:0:0", "info:1:1", "info:1:2", "info:2:2", "info:1:3", "info:1:4", "priv:1", "priv:2", "bye:0", "bye:1", "bye:2",
-		"pm:0:1", "pm:1:0", "pm:1:2", "pm:2:1", "pm:0:2", "pm:2:0", "inv:0:1", "inv:1:2", "ginfo:0:1", "ginfo:1:2", "kick:0:1", "kick:0:2"}
+		"pm:0:1", "pm:1:0", "pm:1:2", "pm:2:1", "pm:0:2", "pm:2:0", "inv:0:1", "inv:1:2", "ginfo:0:1", "ginfo:1:2", "kick:0:1", "kick:0:2", "stale:0:0", "stale:1:1", "stale:1:2", "stale:0:3"}
 	return a
 }
 
